@@ -1,7 +1,7 @@
 (* Correspondence glue for C18: compares the model's answers with the
    implementation's answers recorded by harness/drive_c18.py.             *)
-From Coq Require Import ZArith List Bool.
-From XV Require Import model.Launcher.
+From Coq Require Import ZArith NArith List Bool.
+From XV Require Import model.Launcher model.LauncherParse.
 Import ListNotations.
 Open Scope Z_scope.
 
@@ -63,6 +63,9 @@ Record answer := {
   a_single : list (option Z);         (* req.match(host) score per alternative *)
   a_union : option (nat * Z);         (* RequirementUnion.match: chosen index, score *)
   a_orunion : option (nat * Z);       (* the same union written a | b | ... *)
+  a_texts : list (list N * option (list req));
+                                      (* texts handed to the real parse() -- the text of the case with its random
+                                         whitespace, texts near the grammar -- and what it answered (None = raised) *)
   a_reg : option (option (nat * req)) (* LauncherRegistry.find over the hosts of launchers.py: None = it raised,
                                          Some None = no launcher, Some (Some (j, r)) = host j, requirement r *)
 }.
@@ -90,6 +93,9 @@ Definition check_case (c : list (list term) * host * list host * list (bool * na
   && list_eqb (opt_eqb Z.eqb) (a_single a) (map (fun r => match_simple r h) rs)
   && opt_eqb natz_eqb (a_union a) (union_match rs h)
   && opt_eqb natz_eqb (a_orunion a) (union_match rs h)
+  && list_eqb req_eqb (map prog_value e) rs
+  && forallb (fun tr : list N * option (list req) =>
+                opt_eqb (list_eqb req_eqb) (snd tr) (text_reqs (fst tr))) (a_texts a)
   && match a_reg a with
      | None => false
      | Some got => opt_eqb natreq_eqb got (registry_answer (split_args gs rs) hs)
